@@ -7,6 +7,8 @@ from . import common
 
 GROUP = "g03"
 PROP_FILE = "C03.v"
+PROP_FILES = ["C03.v", "C03R.v"]
+OB_FILES = ["Obligations.v", "ObligationsReply.v"]
 
 KEY_GRACE = "half-closed-tunnel-cut-after-grace-period"
 KEY_2XX_BODY = "upstream-connect-2xx-declares-body"
@@ -62,32 +64,41 @@ def run(ctx):
         ctx.log("tables:", msg)
         ob_failed.append("translator(gen/tables g03): " + msg)
     ok, log, failed = ctx.coq_make(GROUP)
-    core_broken = [f for f in failed if f not in (PROP_FILE, "Obligations.v")]
+    core_broken = [f for f in failed if f not in PROP_FILES + OB_FILES]
     if not ok:
         ctx.log("coq build problems in:", failed)
     bad_words = common.forbidden_words([os.path.join(common.VERIF, "coq", "lib"),
                                         os.path.join(common.VERIF, "coq", GROUP)])
     if bad_words:
         ob_failed.append("forbidden vernacular: " + "; ".join(bad_words))
-    if "Obligations.v" in failed:
-        m = re.search(r'File "\./Obligations\.v", line (\d+)', log)
+    ob_names, ob_ok = [], []
+    for obf in OB_FILES:
+        src = open(os.path.join(common.VERIF, "coq", GROUP, obf)).read()
+        names = re.findall(r"\bLemma\s+(ob_\w+)", common.strip_coq_comments(src))
+        ob_names += names
+        if obf not in failed:
+            ob_ok += names
+            continue
+        m = re.search(r'File "\./%s", line (\d+)' % re.escape(obf), log)
         name = None
         if m:
-            lines = open(os.path.join(common.VERIF, "coq", GROUP, "Obligations.v")).read().splitlines()
-            for l in lines[:int(m.group(1))]:
+            for l in src.splitlines()[:int(m.group(1))]:
                 mm = re.match(r"\s*Lemma\s+(\w+)", l)
                 if mm:
                     name = mm.group(1)
-        ob_failed.append("table obligation %s in Obligations.v no longer checks (the source changed shape)" % name)
-    info = ctx.check_theorems(GROUP, PROP_FILE)
-    if info["rc"] != 0:
-        ob_failed.append("theorem %s in %s no longer checks: %s" % (
-            info.get("failed_at"), PROP_FILE, " ".join(info["log"].split())[-300:]))
+        ob_failed.append("table obligation %s in %s no longer checks (the source does not have the shape the theorem needs)"
+                         % (name, obf))
+    info = {"theorems": [], "discharged": [], "assumptions": {}}
+    for pf in PROP_FILES:
+        i = ctx.check_theorems(GROUP, pf)
+        info["theorems"] += i["theorems"]
+        info["discharged"] += i["discharged"]
+        info["assumptions"].update(i["assumptions"])
+        if i["rc"] != 0:
+            ob_failed.append("theorem %s in %s does not check: %s" % (
+                i.get("failed_at") or i["theorems"], pf, " ".join(i["log"].split())[-300:]))
     if core_broken:
         ob_failed.append("model/proof files do not compile: %s\n%s" % (core_broken, log[-1500:]))
-    ob_src = common.strip_coq_comments(open(os.path.join(common.VERIF, "coq", GROUP, "Obligations.v")).read())
-    ob_names = re.findall(r"\bLemma\s+(ob_\w+)", ob_src)
-    ob_ok = [] if "Obligations.v" in failed else ob_names
 
     hb, hlog = ctx.build_harness("c03")
     meta, recs = {}, {}
@@ -159,7 +170,7 @@ def run(ctx):
     coverage = {
         "obligations": len(info["theorems"]) + len(ob_names),
         "discharged": len(info["discharged"]) + len(ob_ok),
-        "checker_cmd": "make -j16 (coq_makefile, full .vo) in coq/lib and coq/g03; coqc C03.v; coqc on %d case shards (vm_compute)"
+        "checker_cmd": "make -j16 (coq_makefile, full .vo) in coq/lib and coq/g03; coqc C03.v, C03R.v; coqc on %d case shards (vm_compute)"
                        % len(meta.get("shards", [])),
         "trusted_base": common.standard_trusted_base([
             "Print Assumptions per theorem: %s" % json.dumps(info["assumptions"]),
